@@ -243,6 +243,9 @@ int read_macho(
     macho_load_command.type = file.get_int32();
     macho_load_command.size = file.get_int32();
 
+    // A truncated file: the counts read so far are all ones.
+    if (file.eof()) { break; }
+
     switch (macho_load_command.type)
     {
       case 0x00000001:
@@ -256,6 +259,8 @@ int read_macho(
         {
           macho_read_section(macho_section, file, bits);
 
+          if (file.eof()) { break; }
+
           if (strcmp(macho_section.section_name, "__text") == 0)
           {
             long marker = file.tell();
@@ -263,7 +268,11 @@ int read_macho(
 
             for (uint32_t t = 0; t < macho_section.size; t++)
             {
-              memory->write8(macho_section.address + t, file.get_int8());
+              int data = file.get_int8();
+
+              if (data == EOF) { break; }
+
+              memory->write8(macho_section.address + t, data);
             }
 
             start = macho_section.address;
@@ -288,6 +297,8 @@ int read_macho(
         for (uint32_t n = 0; n < macho_symtab.symbol_count; n++)
         {
           macho_read_symbol(macho_symbol, file, bits);
+
+          if (file.eof()) { break; }
 
           // Check N_EXT (external symbol bit).
           if ((macho_symbol.type & 1) == 1)
